@@ -10,9 +10,13 @@
     * `mu : BState → Nat`  (TerminatesLemmas.lean) — the measure, a plain SUM of four parts (no lexicographic
       weights): an action lowers the part of its own thread and raises no other part — with one exception that is paid
       for: an event a client hands to the consumer raises `|bufq|` by one and lowers the client's part by two:
-        - clients    `Σ tm_own pc`: own actions left in the call (`multi_get`: three per key still to come), plus one
-                     for every event the call may still hand to the consumer (`pool.add` of a full buffer,
-                     `buf.send_shutdown`);
+        - clients    `Σ tm_own pc`: own actions left in the call, plus one for every event the call may still hand to
+                     the consumer (`pool.add` of a full buffer, `buf.send_shutdown`).  A multi-key read: FIVE per key
+                     still to do — every load of the shutdown flag is an action of its own (`CPc.mgetFlag`): the outer
+                     load of `MultiGetIterator::next`, the load inside `get`, then the lookup, the access record and
+                     the buffer it may hand over (`multi_get` has one outer load only, at its entry: four per key) —
+                     `start (mget ks) ↦ 5·|ks| + 3`, outer load `↦ 5·|ks| + 2`, `get`'s load `↦ 5·|ks| + 1` (`ks` with
+                     the key in hand), lookup `↦ 5·|rest| + 5`, `pool.add` `↦ 5·|rest| + 4`;
         - consumer   `|bufq|`: every consumer action takes at least one event;
         - sweeper    `tm_sw`: four actions per entry of the shard not yet visited, plus `sweep.end`;
         - worker     `tm_Wf q u w = q·(10 + 5·(u + q + ins)) + cur`, where
